@@ -44,7 +44,7 @@ P = 'C09'
 BUDGETS = {'C09': (75, 1200, 40)}
 LEVELS = {'C09': 'exploration'}
 ALLOWED = (ServerError, ProtocolError, SSLVerificationError, NetworkError)
-PROBES = {'C09': ['layer.http', 'layer.web', 'layer.robots', 'layer.ftp', 'layer.crawl', 'crawl_ftp', 'long_line', 'raw_random', 'truncated', 'odd_location',
+PROBES = {'C09': ['layer.http', 'layer.web', 'layer.robots', 'layer.ftp', 'layer.crawl', 'crawl_ftp', 'continue_with_partial_files', 'long_line', 'raw_random', 'truncated', 'odd_location',
                   'odd_cookie', 'cookie_flood', 'bad_compression', 'ftp_reply_mutated', 'ftp_listing_mutated', 'hostile_html', 'hostile_css', 'hostile_js',
                   'hostile_sitemap', 'hostile_robots', 'real_file_writer', 'per_url_error_seen', 'healthy_fetched_after_hostile', 'reset', 'stall']}
 INFO = {'C09': {
@@ -511,6 +511,21 @@ def layer_crawl(tape, r, tier):
         if tape.chance(1, 2, 'real_files'):
             argv.remove('--delete-after')          # default file writer: documents are saved under the sandbox (cwd)
             r.probes['real_file_writer'] += 1
+            if tape.chance(1, 3, 'continue'):
+                # --continue with files left by an earlier run: the server is free to ignore the Range request (200), to
+                # answer 416, or to send a 206 that does not fit
+                argv.append('--continue')
+                r.probes['continue_with_partial_files'] += 1
+                for pg in pages[:tape.between(1, 3, 'continue.n')]:
+                    if pg.origin.key() != main.key():
+                        continue
+                    rel = pg.path.lstrip('/')
+                    if not rel or rel.endswith('/'):
+                        rel += 'index.html'
+                    fp = os.path.join(sandbox, main.host, rel)
+                    os.makedirs(os.path.dirname(fp), exist_ok=True)
+                    with open(fp, 'wb') as f:
+                        f.write(b'<html>partial' if tape.chance(1, 2, 'continue.partial') else (pg.body or b'x'))
         concurrency = tape.choice((1, 2, 3), 'concurrency')
 
         def setup(h, server, net):
@@ -561,7 +576,8 @@ def layer_crawl(tape, r, tier):
             own = [main.host]
             # (only when every hostile resource is a document inside well-framed HTTP: a malformed HTTP message can
             # legitimately desynchronise its keep-alive connection and fail the next URL on it as a per-URL error)
-            if not with_robots and ftp_tree is None and all(x.hostile_kind != 'http' for x in hostile):
+            # (nor with --continue: a page whose left-over file the server does not continue fails, and what it links to with it)
+            if not with_robots and ftp_tree is None and '--continue' not in argv and all(x.hostile_kind != 'http' for x in hostile):
                 ref_rows, expected = crawl.reference_crawl(site, starts, opts, own)
                 reqs = {canon(e['url']) for e in server.log}
                 for u in expected:
